@@ -7,12 +7,26 @@
 template <typename T>
 bool order_ascending(T left, T right)
 {
+  // NaN sorts first, as in awkward_sort (x != x only for NaN)
+  if (left != left) {
+    return true;
+  }
+  if (right != right) {
+    return false;
+  }
   return left <= right;
 }
 
 template <typename T>
 bool order_descending(T left, T right)
 {
+  // NaN sorts first in descending order, too
+  if (left != left) {
+    return true;
+  }
+  if (right != right) {
+    return false;
+  }
   return left >= right;
 }
 
